@@ -113,6 +113,10 @@ def step (st : St) (line : String) : St × String :=
     let (st', o, c) := syncFrom st believed
     ({ st' with cached := if o.startsWith "err" then none else c, dirty := false }, "ok")
   | ["hwm"] => (st, if !st.eng.hasDB then "nodb" else s!"hwm={st.eng.hwm}")
+  | ["hwm-frame", n] =>
+    (match n.toNat? with
+     | some h => if !st.eng.hasDB then (st, "bad-op") else ({ st with eng := { st.eng with hwm := h } }, "ok")
+     | none => (st, "bad-op"))
   | ["svc"] => (st, showSvc st.svc)
   | ["svc-drop-last"] => if st.svc.isEmpty then (st, "empty") else ({ st with svc := st.svc.dropLast }, "ok")
   | ["svc-clear"] => ({ st with svc := [] }, "ok")
